@@ -59,10 +59,17 @@ class Context:
                 raise TypeError(
                     "update expected at most 1 arguments, got %s" % (len(iterable))
                 )
-            source = to_pairs(iterable[0])
-            for key, value in source:
-                self[key] = value
-        for key, value in kwargs.items():
+            source = list(to_pairs(iterable[0]))
+        else:
+            source = []
+        source.extend(kwargs.items())
+        # reject unknown keys before changing anything
+        for key, value in source:
+            if key not in self:
+                raise KeyError(
+                    f"{key!r} not permitted in this {self.__class__.__name__}"
+                )
+        for key, value in source:
             self[key] = value
 
     def __repr__(self):
